@@ -310,6 +310,12 @@ Definition new_mappings (s : st) (from page : Z) : list (Z * Z) * Z :=
    match maps s with [] => 0 | _ => i32 (fold_right (fun p m => Z.max (fst p) m) (fst (hd (0, 0) (maps s))) (maps s)) end).
 
 (* ---- histories ---- *)
+(* requests that may run while the binlog refuses Append/AppendASAP (write fault, back pressure, shutdown) *)
+Inductive fop :=
+| FSave (p l id oldv data : Z) (create : bool) (del typ meta now : Z)
+| FGoc (metric key now : Z)
+| FPut (kvs : list (Z * Z))
+| FDel (ids : list Z).
 Inductive op :=
 | OSave (p l id oldv data : Z) (create : bool) (del typ meta now : Z)
 | OGoc (metric key now : Z)
@@ -322,7 +328,8 @@ Inductive op :=
 | OGetVer (id ver : Z)
 | OById (id : Z)
 | OByVal (key : Z)
-| ONewMaps (from page : Z).
+| ONewMaps (from page : Z)
+| OFailAppend (f : fop).   (* a writing request during which the binlog refuses the append *)
 
 Inductive res :=
 | RSave (e : err) (id ver ns : Z)
@@ -335,7 +342,27 @@ Inductive res :=
 | RGetVer (o : option hrow)
 | ROptZ (o : option Z)
 | RNewMaps (l : list (Z * Z)) (mx : Z)
+| RFail     (* the request returned the binlog's error *)
 | RErr.   (* an error the model never predicts *)
+
+Definition with_last (s : st) (id : Z) : st := St (ents s) (eseq s) (hist s) (maps s) (mseq s) (flood s) id.
+
+(* sqlite.Engine.doWithoutWait: when the transaction body succeeded and produced an event but the append is refused,
+   the savepoint is rolled back and the error returned: no table changes, no event. A request that produces no event
+   (it failed by itself, found an existing mapping, hit the flood limit, deleted nothing) never reaches the append.
+   One thing survives the rollback: GetOrCreateMapping stores the created id in DBV2.lastMappingIDToInsert inside the
+   transaction body. *)
+Definition step_fail (v : variant) (c : cfg) (s : st) (f : fop) : res * st * list event :=
+  match f with
+  | FSave p l id oldv data create dl typ meta now =>
+      (match fst (fst (fst (save v s (p, l) id oldv data create dl typ meta now))) with
+       | EOk => RFail | e => RSave e 0 0 0 end, s, [])
+  | FGoc m k now =>
+      (match fst (fst (goc c s m k now)) with GCreated _ => RFail | g => RGoc g end,
+       match fst (fst (goc c s m k now)) with GCreated id => with_last s id | _ => s end, [])
+  | FPut kvs => (RFail, s, [])
+  | FDel ids => (match filter (fun p => mem_z (fst p) ids) (maps s) with [] => RCount 0 | _ => RFail end, s, [])
+  end.
 
 Definition step (v : variant) (c : cfg) (s : st) (o : op) : res * st * list event :=
   match o with
@@ -353,6 +380,7 @@ Definition step (v : variant) (c : cfg) (s : st) (o : op) : res * st * list even
   | OById id => (ROptZ (map_by_id (maps s) id), s, [])
   | OByVal k => (ROptZ (map_by_key (maps s) k), s, [])
   | ONewMaps from page => let '(l, mx) := new_mappings s from page in (RNewMaps l mx, s, [])
+  | OFailAppend f => step_fail v c s f
   end.
 
 Definition step_st v c s o := snd (fst (step v c s o)).
